@@ -74,7 +74,7 @@ let show_ev = function
    labels already ---- *)
 let show_nev = function EC (c, WSub w) -> Printf.sprintf "c%d:S%d" (int_of_nat c) (int_of_nat w) | e -> show_ev e
 let nkind_of = function "nest_jj" -> Some NJJ | "nest_jt" -> Some NJT | "nest_jr" -> Some NJR | "nest_rj" -> Some NRJ | "nest_mm" -> Some NMM
-  | "nest_cm" -> Some NCM | "nest_zm" -> Some NZM | "nest_gj" -> Some NGJ | "nest_gm" -> Some NGM | _ -> None
+  | "nest_cm" -> Some NCM | "nest_zm" -> Some NZM | "nest_gj" -> Some NGJ | "nest_gm" -> Some NGM | "nest_tt" -> Some NTT | _ -> None
 let () =
   let selective = Sys.argv.(1) = "std" in
   try while true do
@@ -103,7 +103,7 @@ let () =
           | "wait_stream" -> run_wait true scripts ops
           | "fgroup" | "fgroup_keyed" -> run_group selective false (nat_of_int n) ops
           | "sgroup" | "sgroup_keyed" -> run_group selective true (nat_of_int n) ops
-          | "nest_jj" | "nest_mm" | "nest_jt" | "nest_gj" | "nest_gm" | "nest_jr" | "nest_rj" | "nest_cm" | "nest_zm" -> []
+          | "nest_jj" | "nest_mm" | "nest_jt" | "nest_gj" | "nest_gm" | "nest_jr" | "nest_rj" | "nest_cm" | "nest_zm" | "nest_tt" -> []
           | _ -> failwith "comb" in
         (* the keys of members born through extend are not observable: their K tokens are printed as a bare `k` (the i-th EK belongs to the i-th insert) *)
         let nk = ref 0 in
